@@ -582,11 +582,14 @@ class Mp4Atom(ObjectWithFields):
             if options:
                 options.log.debug('Failed to read atom type. pos=%d', position)
             return None
+        size_to_eof = False
         if size == 0:
+            # the box extends to the end of the file
             pos = src.tell()
             src.seek(0, 2)  # seek to end
-            size = src.tell() - pos
+            size = src.tell() - position
             src.seek(pos)
+            size_to_eof = True
         elif size == 1:
             size_ext = src.read(8)
             buf.append(size_ext)
@@ -603,13 +606,35 @@ class Mp4Atom(ObjectWithFields):
             atom_type = f'UUID({uuid})'
         else:
             atom_type = str(atom_type, 'ascii')
-        return {
+        rv = {
             "atom_type": atom_type,
             "position": position,
             "size": size,
             "header_size": src.tell() - position,
             "_buffer": b''.join(buf),
         }
+        if size_to_eof:
+            rv["size_to_eof"] = True
+        return rv
+
+    def _encode_header(self, out, fourcc: bytes, size: int) -> None:
+        """
+        Writes the size and type of this box, in the form that was used
+        when it was parsed
+        """
+        if getattr(self, 'size_to_eof', False):
+            out.write(struct.pack('>I', 0))
+            out.write(fourcc)
+        elif (size > 0xFFFFFFFF or
+              getattr(self, 'header_size', 0) == len(fourcc) + 12):
+            # 64-bit largesize follows the box type
+            out.write(struct.pack('>I', 1))
+            out.write(fourcc[:4])
+            out.write(struct.pack('>Q', size))
+            out.write(fourcc[4:])
+        else:
+            out.write(struct.pack('>I', size))
+            out.write(fourcc)
 
     def encode(self, dest=None, depth=0):
         out = dest
@@ -629,20 +654,20 @@ class Mp4Atom(ObjectWithFields):
             self.options.log.debug('%s: Using pre-encoded data length=%d',
                                    self._fullname, len(self._encoded))
             expected_size = 4 + len(fourcc) + len(self._encoded)
+            if getattr(self, 'header_size', 0) == len(fourcc) + 12:
+                expected_size += 8
             if self.size != expected_size:
                 msg = r'{}: Expected size {:d}, actual size {:d}'.format(
                     self._fullname, self.size, expected_size)
                 self.options.log.warning(msg)
                 if self.options.strict:
                     raise ValueError(msg)
-            out.write(struct.pack('>I', self.size))
-            out.write(fourcc)
+            self._encode_header(out, fourcc, self.size)
             out.write(self._encoded)
             if dest is None:
                 return out.getvalue()
             return dest
-        out.write(struct.pack('>I', 0))
-        out.write(fourcc)
+        self._encode_header(out, fourcc, 0)
         self.encode_fields(dest=out)
         # indent = ' ' * depth
         if self._children:
@@ -653,7 +678,7 @@ class Mp4Atom(ObjectWithFields):
         # print(f'{indent}{self.atom_type}: {self.position} -> {out.tell()} ({self.size})')
         # replace the length field
         out.seek(self.position)
-        out.write(struct.pack('>I', self.size))
+        self._encode_header(out, fourcc, self.size)
         out.seek(0, 2)  # seek to end
         if depth == 0:
             self.post_encode_all(dest=out)
@@ -857,6 +882,8 @@ class LazyLoadedBox(Mp4Atom):
             "size": self.size,
             "header_size": self.header_size,
         }
+        if getattr(self, 'size_to_eof', False):
+            hdr["size_to_eof"] = True
 
         if self.options.log.isEnabledFor(logging.DEBUG):
             self.options.log.debug('lazy loading %s', self.atom_type)
